@@ -230,8 +230,14 @@ func (g *Generator) generateFlattenFieldMarshal(gf *protogen.GeneratedFile, info
 	gf.P("// Flatten field: ", field.Desc.Name())
 	gf.P("if x.", goName, " != nil {")
 	gf.P(`delete(raw, "`, jsonName, `")`)
-	gf.P("// Use json.Marshal to invoke child's MarshalJSON (annotation composability)")
-	gf.P("childData, childErr := json.Marshal(x.", goName, ")")
+	gf.P("// The child's own MarshalJSON if it has one (annotation composability), proto3 JSON otherwise")
+	gf.P("var childData []byte")
+	gf.P("var childErr error")
+	gf.P("if jm, ok := any(x.", goName, ").(json.Marshaler); ok {")
+	gf.P("childData, childErr = jm.MarshalJSON()")
+	gf.P("} else {")
+	gf.P("childData, childErr = protojson.Marshal(x.", goName, ")")
+	gf.P("}")
 	gf.P("if childErr != nil {")
 	gf.P("return nil, childErr")
 	gf.P("}")
@@ -279,7 +285,19 @@ func (g *Generator) generateFlattenUnmarshalJSON(gf *protogen.GeneratedFile, ctx
 	gf.P("return err")
 	gf.P("}")
 	gf.P()
-	gf.P("return protojson.Unmarshal(remaining, x)")
+	gf.P("// protojson.Unmarshal resets the message: the flattened children are put in afterwards")
+	gf.P("if err := protojson.Unmarshal(remaining, x); err != nil {")
+	gf.P("return err")
+	gf.P("}")
+	for _, info := range ctx.FlattenInfos {
+		if info.Field.Message == nil {
+			continue
+		}
+		gf.P("if flat", info.Field.GoName, " != nil {")
+		gf.P("x.", info.Field.GoName, " = flat", info.Field.GoName)
+		gf.P("}")
+	}
+	gf.P("return nil")
 	gf.P("}")
 	gf.P()
 }
@@ -299,12 +317,12 @@ func (g *Generator) generateFlattenFieldUnmarshal(gf *protogen.GeneratedFile, in
 	childTypeName := childMsg.GoIdent.GoName
 
 	gf.P("// Extract flattened child fields for: ", field.Desc.Name())
+	gf.P("var flat", goName, " *", childTypeName)
 	gf.P("{")
 	gf.P("childRaw := make(map[string]json.RawMessage)")
 
-	// Enumerate all child fields at generation time
-	for _, childField := range childMsg.Fields {
-		childJSONName := childField.Desc.JSONName()
+	// Enumerate at generation time the keys the child contributes to the parent object
+	for _, childJSONName := range flattenWireKeys(childMsg, map[string]bool{}) {
 		flattenedKey := prefix + childJSONName
 
 		gf.P(`if v, ok := raw["`, flattenedKey, `"]; ok {`)
@@ -318,12 +336,62 @@ func (g *Generator) generateFlattenFieldUnmarshal(gf *protogen.GeneratedFile, in
 	gf.P("if childErr != nil {")
 	gf.P("return childErr")
 	gf.P("}")
-	gf.P("x.", goName, " = &", childTypeName, "{}")
-	gf.P("// Use json.Unmarshal to invoke child's UnmarshalJSON (annotation composability)")
-	gf.P("if childErr = json.Unmarshal(childData, x.", goName, "); childErr != nil {")
+	gf.P("flat", goName, " = &", childTypeName, "{}")
+	gf.P("// The child's own UnmarshalJSON if it has one (annotation composability), proto3 JSON otherwise")
+	gf.P("if ju, ok := any(flat", goName, ").(json.Unmarshaler); ok {")
+	gf.P("childErr = ju.UnmarshalJSON(childData)")
+	gf.P("} else {")
+	gf.P("childErr = protojson.Unmarshal(childData, flat", goName, ")")
+	gf.P("}")
+	gf.P("if childErr != nil {")
 	gf.P("return childErr")
 	gf.P("}")
 	gf.P("}")
 	gf.P("}")
 	gf.P()
+}
+
+// flattenWireKeys lists the JSON keys a message contributes when it is written into an object: its
+// fields' JSON names, except that a flattened field contributes its child's keys (with the prefix)
+// and a discriminated oneof contributes the discriminator plus, when it is flattened too, the keys of
+// its message variants. visiting guards against recursive message types.
+func flattenWireKeys(msg *protogen.Message, visiting map[string]bool) []string {
+	name := string(msg.Desc.FullName())
+	if visiting[name] {
+		return nil
+	}
+	visiting[name] = true
+	defer delete(visiting, name)
+
+	seen := map[string]bool{}
+	var keys []string
+	add := func(k string) {
+		if !seen[k] {
+			seen[k] = true
+			keys = append(keys, k)
+		}
+	}
+	for _, oneof := range msg.Oneofs {
+		if info := annotations.GetOneofDiscriminatorInfo(oneof); info != nil {
+			add(info.Discriminator)
+		}
+	}
+	for _, field := range msg.Fields {
+		if annotations.IsFlattenField(field) && field.Message != nil {
+			for _, k := range flattenWireKeys(field.Message, visiting) {
+				add(annotations.GetFlattenPrefix(field) + k)
+			}
+			continue
+		}
+		if field.Oneof != nil && field.Message != nil {
+			if info := annotations.GetOneofDiscriminatorInfo(field.Oneof); info != nil && info.Flatten {
+				for _, k := range flattenWireKeys(field.Message, visiting) {
+					add(k)
+				}
+				continue
+			}
+		}
+		add(field.Desc.JSONName())
+	}
+	return keys
 }
